@@ -553,10 +553,90 @@ Proof.
 Qed.
 
 (* ------------------------------------------------------------------ all sequences of operations from either side *)
-Inductive pop := PLink (first : bool) | PEdit (first : bool) (k : nat) (z : Z) | PWave (first : bool) (z : Z) | PReopen.
+(* ------------------------------------------------------------------ two-entry edits with removals (airborne parameters) *)
+Lemma dget_ddel_other {V} j k (d : list (nat * V)) : j <> k -> dget j (ddel k d) = dget j d.
+Proof.
+  intros Hjk. induction d as [|[k' v'] r IH]; simpl; [reflexivity|].
+  destruct (Nat.eqb k k') eqn:E.
+  - apply Nat.eqb_eq in E. subst k'. assert (Ejk : Nat.eqb j k = false) by (apply Nat.eqb_neq; exact Hjk). rewrite Ejk. reflexivity.
+  - simpl. destruct (Nat.eqb j k'); [reflexivity | exact IH].
+Qed.
+
+Lemma ddel_in {V} k (d : list (nat * V)) k0 v0 : In (k0, v0) (ddel k d) -> In (k0, v0) d.
+Proof.
+  induction d as [|[k' v'] r IH]; simpl; [intros []|]. destruct (Nat.eqb k k').
+  - intros H. right. exact H.
+  - intros [H|H]; [left; exact H | right; apply IH; exact H].
+Qed.
+
+Lemma dget_dput_other {V} j k (ov : option V) d : j <> k -> dget j (dput k ov d) = dget j d.
+Proof. intros H. destruct ov; simpl; [apply dget_dset_other | apply dget_ddel_other]; exact H. Qed.
+
+Lemma dput_in {V} k (ov : option V) d k0 v0 : In (k0, v0) (dput k ov d) -> ov = Some v0 \/ In (k0, v0) d.
+Proof.
+  destruct ov as [v|]; simpl; intros H.
+  - apply dset_in in H. destruct H as [[_ E]|H]; [left; subst; reflexivity | right; exact H].
+  - right. apply (ddel_in _ _ _ _ H).
+Qed.
+
+Lemma em_edit2_first_inv s w u1 u2 e1 k1 v1 k2 v2 :
+  inv s w u1 u2 -> get_ent w u1 (ents s) = Some e1 ->
+  k1 <> KA -> k1 <> KB -> k2 <> KA -> k2 <> KB ->
+  (forall wl, v1 <> Some (VRef wl)) -> (forall wl, v2 <> Some (VRef wl)) ->
+  inv (em_edit2 s e1 k1 v1 k2 v2) w u1 u2.
+Proof.
+  intros Hinv G1 Ha1 Hb1 Ha2 Hb2 Hv1 Hv2.
+  destruct (inv_sees _ _ _ _ Hinv) as (e1' & e2 & fd0 & H1 & G2 & Hne & Hrol & Hf1 & Hf2 & Hsees & Hptr & Hown & Hoth & Hc1 & Hc2).
+  assert (e1' = e1) by congruence. subst e1'.
+  assert (Hk1 : forall r, key_of r <> k1) by (intros [|] E; [apply Ha1 | apply Hb1]; symmetry; exact E).
+  assert (Hk2 : forall r, key_of r <> k2) by (intros [|] E; [apply Ha2 | apply Hb2]; symmetry; exact E).
+  destruct (get_ent_some _ _ _ _ G1) as [W1 U1].
+  unfold em_edit2. destruct (em_md s e1) as [l s1] eqn:Em.
+  assert (G1s : get_ent (wsp e1) (uid e1) (ents s) = Some e1) by (rewrite W1, U1; exact G1).
+  destruct (em_md_spec s e1 fd0 G1s Hsees Hptr l s1 Em) as (A1 & A2 & A3 & A4 & A5 & A6 & A7 & A8 & A9).
+  set (e1' := with_md e1 (Some l)) in *.
+  set (d := hget l (heap s1)).
+  set (d' := dput k2 v2 (dput k1 v1 d)).
+  set (s2 := set_heap s1 (hset l d' (heap s1))).
+  assert (Hr : refresh s2 e1 = e1') by (apply refresh_get; exact A1).
+  rewrite Hr.
+  assert (G1' : get_ent w u1 (ents s2) = Some e1') by (rewrite <- W1, <- U1; exact A1).
+  assert (G2' : get_ent w u2 (ents s2) = Some e2).
+  { change (get_ent w u2 (ents s1) = Some e2). rewrite A4; [exact G2|]. right. rewrite U1. exact Hne. }
+  assert (Hread2 : read s2 l = expand (wheap s1) d').
+  { unfold read, s2. simpl. rewrite hget_hset_same. reflexivity. }
+  assert (Hptr2 : ptr_ok s2 l).
+  { destruct A3 as [Hl Hrefs]. split; [exact Hl|]. unfold s2. simpl. rewrite hget_hset_same.
+    intros k0 wl Hin. unfold d' in Hin. apply dput_in in Hin. destruct Hin as [E|Hin]; [exfalso; apply (Hv2 wl E)|].
+    apply dput_in in Hin. destruct Hin as [E|Hin]; [exfalso; apply (Hv1 wl E)|]. apply (Hrefs k0 wl Hin). }
+  assert (Hkeep : forall r, dget (key_of r) (read s2 l) = dget (key_of r) (read s1 l)).
+  { intros r. rewrite Hread2, expand_dget. unfold d'. rewrite !dget_dput_other by (first [apply Hk2 | apply Hk1]).
+    rewrite <- expand_dget. reflexivity. }
+  assert (Hn1 : dget (key_of (rol e1')) (read s2 l) = Some (FU u1)).
+  { change (rol e1') with (rol e1). rewrite Hkeep, A2. exact Hown. }
+  assert (Hn2 : dget (key_of (rol e2)) (read s2 l) = Some (FU u2)).
+  { rewrite Hkeep, A2. exact Hoth. }
+  destruct (em_assign_inv s2 w u1 u2 e1' e2 l G1' G2' Hne Hrol Hf1 Hf2 Hptr2 Hn1 Hn2 Hc1 Hc2) as (B1 & _).
+  exact B1.
+Qed.
+
+Lemma param_first_inv s w u1 u2 e1 kv kp v :
+  inv s w u1 u2 -> get_ent w u1 (ents s) = Some e1 -> kv <> KA -> kv <> KB -> kp <> KA -> kp <> KB ->
+  inv (em_param s e1 kv kp v) w u1 u2.
+Proof.
+  intros Hinv G1 A1 B1 A2 B2. destruct v; simpl; apply em_edit2_first_inv; try assumption; intros wl E; discriminate.
+Qed.
+
+Inductive pop := PLink (first : bool) | PEdit (first : bool) (k : nat) (z : Z) | PWave (first : bool) (z : Z) | PReopen
+               | PParam (first : bool) (kv kp : nat) (v : pval).
 
 (* scalar edits address survey parameters, not the two link keys *)
-Definition pop_ok (o : pop) : Prop := match o with PEdit _ k _ => k <> KA /\ k <> KB | _ => True end.
+Definition pop_ok (o : pop) : Prop :=
+  match o with
+  | PEdit _ k _ => k <> KA /\ k <> KB
+  | PParam _ kv kp _ => kv <> KA /\ kv <> KB /\ kp <> KA /\ kp <> KB
+  | _ => True
+  end.
 
 (* the operation on the pair (u1, u2) of workspace w, through the same functions the history interpreter [step] calls *)
 Definition pstep (w : bool) (u1 u2 : N) (s : st) (o : pop) : st :=
@@ -570,6 +650,8 @@ Definition pstep (w : bool) (u1 u2 : N) (s : st) (o : pop) : st :=
       | PWave true z => em_wave s e1 z
       | PWave false z => em_wave s e2 z
       | PReopen => reopen s
+      | PParam true kv kp v => em_param s e1 kv kp v
+      | PParam false kv kp v => em_param s e2 kv kp v
       end
   | _, _ => s
   end.
@@ -579,7 +661,7 @@ Proof.
   intros Hinv Hok. unfold pstep.
   destruct (get_ent w u1 (ents s)) as [e1|] eqn:G1; [|exact Hinv].
   destruct (get_ent w u2 (ents s)) as [e2|] eqn:G2; [|exact Hinv].
-  destruct o as [[|]|[|] k z|[|] z|].
+  destruct o as [[|]|[|] k z|[|] z| |[|] kv kp v].
   - apply link_first_inv; assumption.
   - apply inv_sym. apply link_first_inv; [apply inv_sym; exact Hinv | assumption | assumption].
   - destruct Hok as [Ha Hb]. apply edit_first_inv; assumption.
@@ -587,6 +669,8 @@ Proof.
   - apply wave_first_inv; assumption.
   - apply inv_sym. apply wave_first_inv; [apply inv_sym; exact Hinv | assumption].
   - apply reopen_inv. exact Hinv.
+  - destruct Hok as (A1 & B1 & A2 & B2). apply param_first_inv; assumption.
+  - destruct Hok as (A1 & B1 & A2 & B2). apply inv_sym. apply param_first_inv; [apply inv_sym; exact Hinv | assumption..].
 Qed.
 
 Theorem edit_shared w u1 u2 : forall l s,
